@@ -315,7 +315,8 @@ func (u *Unit) typeInv(v Term, t types.Type, alloc Term) Term {
 			return InRange(v, t)
 		}
 		if ut.Info()&types.IsString != 0 {
-			return Ge(App(SInt, "str_len", v), IntLit(0))
+			// a Go string value occupies at most 2^48 bytes (runtime maxAlloc)
+			return And(Ge(App(SInt, "str_len", v), IntLit(0)), Le(App(SInt, "str_len", v), BigLit("281474976710656")))
 		}
 		return True
 	case *types.Pointer:
